@@ -6,7 +6,7 @@ From TR Require Import Lib.Base Model.Budget Proof.Budget Model.Adaptive.
 (* ------------------------------------------------------------------------- *)
 (* (a1) AimdController / Aimd *)
 Section ControllerMachine.
-  Context (c : acfg) (dec : Z -> Z) (thr : Z).
+  Context (c : acfg) (dec : Z -> Z) (thr init0 : Z).
   Context (Hmm : a_min c <= a_max c) (Hu : a_max c <= U64MAX) (Hinc : 0 <= a_inc c).
 
   Definition in_bounds (v : Z) : Prop := a_min c <= v <= a_max c.
@@ -25,11 +25,11 @@ Section ControllerMachine.
   Lemma ct_step_ok :
     forall m log W call pc sp tid first clock,
       ct_G m log W -> ct_L call pc ->
-      match p_next (ct_prog c dec thr) pc (o_val (exec m (p_op (ct_prog c dec thr) pc) sp))
-                   (o_ok (exec m (p_op (ct_prog c dec thr) pc) sp)) with
-      | inl pc' => ct_G (o_mem (exec m (p_op (ct_prog c dec thr) pc) sp)) log (W - 0 + 0)
+      match p_next (ct_prog c dec thr init0) pc (o_val (exec m (p_op (ct_prog c dec thr init0) pc) sp))
+                   (o_ok (exec m (p_op (ct_prog c dec thr init0) pc) sp)) with
+      | inl pc' => ct_G (o_mem (exec m (p_op (ct_prog c dec thr init0) pc) sp)) log (W - 0 + 0)
                    /\ ct_L call pc'
-      | inr ret => ct_G (o_mem (exec m (p_op (ct_prog c dec thr) pc) sp))
+      | inr ret => ct_G (o_mem (exec m (p_op (ct_prog c dec thr init0) pc) sp))
                         ({| r_tid := tid; r_call := call; r_ret := ret;
                             r_first := first; r_res := clock |} :: log) (W - 0)
       end.
@@ -39,7 +39,7 @@ Section ControllerMachine.
                                ct_G m' ({| r_tid := tid; r_call := call; r_ret := 2;
                                            r_first := first; r_res := clock |} :: log) (W - 0)).
     { intros m' Hm' Hc. split; [exact Hm'|]. constructor; [cbn; intros E; contradiction|exact Hl]. }
-    destruct pc as [|p| |p|n|n p|]; unfold ct_L in HL;
+    destruct pc as [|p| |p|n|n p| |]; unfold ct_L in HL;
       cbn [ct_prog p_next p_op ct_op ct_next exec o_val o_ok o_mem].
     - split; [split; assumption|exact HL].
     - destruct ((m LLim =? p) && negb sp) eqn:E; cbn [o_val o_ok o_mem].
@@ -59,12 +59,15 @@ Section ControllerMachine.
         apply ctl_succs_bounds; try assumption; [apply HL|]. unfold in_bounds in Hb. lia.
       + split; [split; assumption|exact HL].
     - split; [exact Hb|]. constructor; [cbn; intros _; exact Hb|exact Hl].
+    - (* reset(): a plain store of the clamped initial limit *)
+      apply Hdone; [|exact HL]. unfold in_bounds. rewrite mset_same. unfold ctl_init.
+      apply clampz_bounds. exact Hmm.
   Qed.
 
   Definition ct_inv := inv (PC := ct_pc) ct_G ct_L (fun _ => 0).
 
   Lemma ct_reach initial progs sched :
-    Forall ct_inv (states (step (ct_prog c dec thr)) (init_state (ct_mem c initial) progs) sched).
+    Forall ct_inv (states (step (ct_prog c dec thr init0)) (init_state (ct_mem c initial) progs) sched).
   Proof.
     apply inv_reach.
     - intros k; destruct k; cbn; try discriminate; try exact I.
@@ -77,15 +80,15 @@ Section ControllerMachine.
 End ControllerMachine.
 
 Lemma ct_limit_in_bounds :
-  forall (c : acfg) (dec : Z -> Z) (thr initial : Z) (progs : list (list ct_call))
+  forall (c : acfg) (dec : Z -> Z) (thr init0 initial : Z) (progs : list (list ct_call))
          (sched : list (nat * bool)),
     a_min c <= a_max c -> a_max c <= U64MAX -> 0 <= a_inc c ->
     Forall (fun s => a_min c <= st_mem s LLim <= a_max c
                      /\ Forall (fun r => r_call r = CtLimit -> a_min c <= r_ret r <= a_max c)
                                (st_log s))
-           (states (step (ct_prog c dec thr)) (init_state (ct_mem c initial) progs) sched).
+           (states (step (ct_prog c dec thr init0)) (init_state (ct_mem c initial) progs) sched).
 Proof.
-  intros c dec thr initial progs sched H1 H2 H3.
+  intros c dec thr init0 initial progs sched H1 H2 H3.
   eapply Forall_impl; [|apply ct_reach; assumption].
   intros s [[Hb Hl] _]. split; [exact Hb|exact Hl].
 Qed.
@@ -188,13 +191,13 @@ Proof.
 Qed.
 
 Lemma limit_in_bounds :
-  (forall (c : acfg) (dec : Z -> Z) (thr initial : Z) (progs : list (list ct_call))
+  (forall (c : acfg) (dec : Z -> Z) (thr init0 initial : Z) (progs : list (list ct_call))
           (sched : list (nat * bool)),
       a_min c <= a_max c -> a_max c <= U64MAX -> 0 <= a_inc c ->
       Forall (fun s => a_min c <= st_mem s LLim <= a_max c
                        /\ Forall (fun r => r_call r = CtLimit -> a_min c <= r_ret r <= a_max c)
                                  (st_log s))
-             (states (step (ct_prog c dec thr)) (init_state (ct_mem c initial) progs) sched))
+             (states (step (ct_prog c dec thr init0)) (init_state (ct_mem c initial) progs) sched))
   /\
   (forall (c : vcfg) (smooth : Z -> Z -> Z) (qest : Z -> Z -> Z -> Z) (initial : Z)
           (progs : list (list vg_call)) (sched : list (nat * bool)),
@@ -205,10 +208,20 @@ Lemma limit_in_bounds :
              (states (step (vg_prog c smooth qest)) (init_state (vg_mem c initial) progs) sched)).
 Proof. split; [exact ct_limit_in_bounds|exact vg_limit_in_bounds]. Qed.
 
+(* reset() with a configured initial limit outside [min, max] stores the CLAMPED value (an
+   unclamped store would put 500 into a limiter bounded by 10) *)
+Example reset_is_clamped :
+  let c := {| a_min := 1; a_max := 10; a_inc := 1 |} in
+  let s := fold_left (step (ct_prog c (dec_q 1 2) 0 500))
+                     (map (fun t => (t, false)) [0; 0; 0; 0; 0]%nat)
+                     (init_state (ct_mem c 500) [[CtFailure; CtReset; CtLimit]]) in
+  (st_mem s LLim, map (@r_ret _) (st_log s)) = (10, [10; 2; 2]).
+Proof. vm_compute. reflexivity. Qed.
+
 (* non-vacuity: racing feedback on the controller, nothing is lost *)
 Example controller_race :
   let c := {| a_min := 1; a_max := 10; a_inc := 1 |} in
-  let s := fold_left (step (ct_prog c (dec_q 1 2) 0))
+  let s := fold_left (step (ct_prog c (dec_q 1 2) 0 5))
                      (map (fun t => (t, false)) [0; 1; 0; 1; 1]%nat)
                      (init_state (ct_mem c 5) [[CtSuccess]; [CtSuccess]]) in
   st_mem s LLim = 7.
@@ -318,7 +331,7 @@ Section ServiceCount.
   Lemma sv_cinv_step (s : svc) (e : sev) : sv_cinv s -> sv_cinv (sv_st A s e).
   Proof.
     intros H. pose proof H as (Hc & Hn & Hi).
-    unfold sv_st. destruct e as [|a|a|a o|a|ms|mode|a| |]; cbn [sv_step].
+    unfold sv_st. destruct e as [|a|a|a o|a|ms|mode|a| | |a|a|a]; cbn [sv_step].
     - destruct (sv_limit s <=? sv_inflight s); exact H.
     - destruct (memn a (sv_created s)) eqn:Em; [exact H|]. cbn.
       unfold sv_cinv; cbn [sv_inflight sv_live sv_created map fst length].
@@ -337,6 +350,9 @@ Section ServiceCount.
       unfold sv_cinv; cbn [sv_inflight sv_live sv_created].
       split; [lia|]. split; [exact Hn|]. intros x Hx. right. apply Hi. exact Hx.
     - exact H.
+    - exact H.
+    - exact H.
+    - destruct (lookup a (sv_park s)) as [r|]; [destruct (r =? 13)|]; exact H.
     - exact H.
   Qed.
 
@@ -359,7 +375,7 @@ Section ServiceLimit.
   Lemma sv_linv_step (s : svc) (e : sev) : sv_linv s -> sv_linv (sv_st A s e).
   Proof.
     unfold sv_linv, sv_limit, sv_st. intros H.
-    destruct e as [|a|a|a o|a|ms|mode|a| |]; cbn [sv_step].
+    destruct e as [|a|a|a o|a|ms|mode|a| | |a|a|a]; cbn [sv_step].
     - destruct (sv_limit s <=? sv_inflight s); exact H.
     - destruct (memn a (sv_created s)); exact H.
     - destruct (lookup a (sv_live s)) as [start|]; [|exact H].
@@ -372,6 +388,9 @@ Section ServiceLimit.
     - destruct (memn a (sv_created s)); exact H.
     - cbn. auto.
     - cbn. auto.
+    - exact H.
+    - destruct (lookup a (sv_park s)) as [r|]; [destruct (r =? 13)|]; exact H.
+    - exact H.
   Qed.
 
   Lemma sv_lreach a0 evs :
@@ -429,7 +448,7 @@ Qed.
 Lemma sv_step_delta A s e :
   sv_inflight (fst (sv_step A s e)) = sv_inflight s + code_delta (snd (sv_step A s e)).
 Proof.
-  destruct e as [|a|a|a o|a|ms|mode|a| |]; cbn [sv_step].
+  destruct e as [|a|a|a o|a|ms|mode|a| | |a|a|a]; cbn [sv_step].
   - destruct (sv_limit s <=? sv_inflight s); cbn; [lia|].
     destruct (sv_inner s =? 0); [cbn; lia|]. destruct (sv_inner s =? 1); cbn; lia.
   - destruct (memn a (sv_created s)); cbn; lia.
@@ -441,6 +460,11 @@ Proof.
   - cbn; lia.
   - destruct (memn a (sv_created s)); cbn; lia.
   - cbn; lia.
+  - cbn; lia.
+  - cbn [fst snd sv_set_park sv_inflight]. unfold ready_code.
+    destruct (sv_limit s <=? sv_inflight s); [cbn; lia|].
+    destruct (sv_inner s =? 0); [cbn; lia|]. destruct (sv_inner s =? 1); cbn; lia.
+  - destruct (lookup a (sv_park s)) as [r|]; [destruct (r =? 13)|]; cbn; lia.
   - cbn; lia.
 Qed.
 
@@ -519,6 +543,63 @@ Proof.
   intros A a0 evs.
   eapply Forall_impl; [|apply (inflight_exact A a0 evs)].
   cbn beta. intros s [Hc _] Hle. apply pending_when_at_limit. lia.
+Qed.
+
+(* no lost wake-up: a parked caller (own clone, own waker) that was refused AT THE LIMIT had its
+   waker woken by that very check, and it stays woken until the caller checks again or goes away,
+   whatever happens in between; a check below the limit is answered with the inner service's
+   readiness *)
+Lemma parked_refusal_is_a_wake :
+  forall (A : alg) (s : svc) (a : nat),
+    let s' := fst (sv_step A s (EPark a)) in
+    snd (sv_step A s (EPark a)) = ready_code s
+    /\ (sv_limit s <= sv_inflight s -> snd (sv_step A s' (EWoken a)) = 91)
+    /\ (sv_inflight s < sv_limit s -> sv_inner s = 0 -> snd (sv_step A s (EPark a)) = 11).
+Proof.
+  intros A s a. cbn [sv_step fst snd sv_set_park sv_park lookup]. rewrite Nat.eqb_refl.
+  unfold ready_code. split; [reflexivity|]. split.
+  - intros H. destruct (Z.leb_spec (sv_limit s) (sv_inflight s)); [reflexivity|lia].
+  - intros H Hi. destruct (Z.leb_spec (sv_limit s) (sv_inflight s)); [lia|]. rewrite Hi. reflexivity.
+Qed.
+
+Lemma lookup_remove_key_other {V : Type} a b (l : list (nat * V)) :
+  a <> b -> lookup a (remove_key b l) = lookup a l.
+Proof.
+  intros Hne. induction l as [|[k v] t IH]; cbn; [reflexivity|].
+  destruct (Nat.eqb_spec k b).
+  - subst k. destruct (Nat.eqb_spec b a); [congruence|exact IH].
+  - cbn. destruct (Nat.eqb_spec k a); [reflexivity|exact IH].
+Qed.
+
+(* the wake survives every event that is not a new check or the departure of that caller *)
+Lemma woken_is_stable :
+  forall (A : alg) (s : svc) (e : sev) (a : nat),
+    e <> EPark a -> e <> EUnpark a ->
+    snd (sv_step A s (EWoken a)) = 91 ->
+    snd (sv_step A (sv_st A s e) (EWoken a)) = 91.
+Proof.
+  intros A s e a H1 H2. unfold sv_st. cbn [sv_step snd].
+  assert (Hsame : sv_park (fst (sv_step A s e)) = sv_park s \/
+                  exists b, a <> b /\ (lookup a (sv_park (fst (sv_step A s e))) = lookup a (sv_park s))).
+  { destruct e as [|b|b|b o|b|ms|mode|b| | |b|b|b]; cbn [sv_step].
+    - left. destruct (sv_limit s <=? sv_inflight s); reflexivity.
+    - left. destruct (memn b (sv_created s)); reflexivity.
+    - left. destruct (lookup b (sv_live s)); [|reflexivity]. destruct (lookup b (sv_gate s)) as [o|]; [|reflexivity].
+      destruct (o =? 0); [reflexivity|]. destruct (o =? 1); reflexivity.
+    - left. destruct (lookup b (sv_gate s)); reflexivity.
+    - left. destruct (lookup b (sv_live s)); reflexivity.
+    - left. reflexivity.
+    - left. reflexivity.
+    - left. destruct (memn b (sv_created s)); reflexivity.
+    - left. reflexivity.
+    - left. reflexivity.
+    - right. exists b. assert (a <> b) by (intros ->; apply H1; reflexivity). split; [assumption|].
+      cbn [fst sv_set_park sv_park lookup]. destruct (Nat.eqb_spec b a); [congruence|].
+      apply lookup_remove_key_other. assumption.
+    - left. reflexivity.
+    - right. exists b. assert (a <> b) by (intros ->; apply H2; reflexivity). split; [assumption|].
+      cbn [fst sv_set_park sv_park]. apply lookup_remove_key_other. assumption. }
+  destruct Hsame as [E|[b [_ E]]]; rewrite E; auto.
 Qed.
 
 (* the limit the service compares with stays in bounds, for both algorithms *)
